@@ -70,6 +70,24 @@ def check(col: Collector, tier: str):
             seen = src(t.comparators[0])
     not_seen = seen is not None
 
+    def subset_shape(t):
+        """t compares some collection with <seen> for inclusion (whatever the collection is): returns the collection's text"""
+        if isinstance(t, ast.Compare) and len(t.ops) == 1:
+            l, op, r = t.left, t.ops[0], t.comparators[0]
+            if isinstance(op, ast.LtE) and src(r) == seen:
+                return src(l)
+            if isinstance(op, ast.GtE) and src(l) == seen:
+                return src(r)
+        if isinstance(t, ast.Call) and call_name(t) == "issubset" and len(t.args) == 1 and src(t.args[0]) == seen:
+            return src(t.func.value)
+        if isinstance(t, ast.Call) and call_name(t) == "issuperset" and len(t.args) == 1 and src(t.func.value) == seen:
+            return src(t.args[0])
+        if isinstance(t, ast.Call) and call_name(t) == "all" and len(t.args) == 1 and isinstance(t.args[0], (ast.GeneratorExp, ast.ListComp)) \
+                and len(t.args[0].generators) == 1 and isinstance(t.args[0].elt, ast.Compare) and isinstance(t.args[0].elt.ops[0], ast.In) \
+                and src(t.args[0].elt.comparators[0]) == seen:
+            return src(t.args[0].generators[0].iter)
+        return None
+
     def is_subset_test(t) -> bool:
         """t says: every dependency of <block> is in <seen>"""
         dep = f"[{blockvar}.name]"
@@ -96,6 +114,9 @@ def check(col: Collector, tier: str):
     if seen is not None and not subset:
         others = [src(t) for t, truth in gs if not (isinstance(t, ast.Compare) and src(t.left) == f"{blockvar}.name" and src(t.comparators[0]) == seen)
                   and not isinstance(t, (ast.For, ast.While, ast.BoolOp, ast.Constant)) and src(t) not in {src(w_.test) for w_ in whiles}]
+        wrong_set = [subset_shape(t) for t, truth in gs if truth and seen and subset_shape(t) is not None]
+        if wrong_set:
+            others = []          # readiness IS decided by inclusion in the emitted set - of something else than the merged dependency table
         if others:
             # another readiness test (counters, a work list that is struck off, ...): a different algorithm, not decided by this rule
             col.defer(f"generate_script_block decides readiness by {others[:2]}, not by `dependencies of the block are a subset of the emitted ones`: "
